@@ -16,7 +16,7 @@ EXPLANATION = (
     "discarded (never feeds the readiness flag or the state); (pending-paired) total_pending is +1 exactly out of Unknown and -1 exactly into Done/Failed "
     "(exhaustive 98-input table) and Done/Failed have no outgoing transition; (loop-shape) Work::run's loop test is total_pending > 0, Runner::wait is "
     "called only under is_running() == true (so it cannot block with nothing running), is_running is running > 0, the `BUG:` panic and the break are "
-    "reachable only when no progress was made and nothing runs, the break only under tasks_failed > 0; every progress-making step sets made_progress; "
+    "reachable only when no progress was made and nothing runs, the break only under tasks_failed > 0; settling a ready build sets made_progress (after Runner::start a command runs, so the wait is harmless); the pool slot taken at Running is given back on every transition out of Running (a slot leaked on failure would leave the rest of its pool undecided); "
     "(worker-always-reports) the spawned task closure sends exactly one Done message on every path. Decides these clauses; termination for all "
     "schedules and absence of the `BUG:` panic are liveness properties that are NOT decided."
 )
